@@ -13,7 +13,7 @@ import os
 
 import numpy as np
 
-from .. import core, motlutil
+from .. import argguard, core, motlutil
 
 L1_INVS = ["C07_GreedyValid", "C07_PartialSeparated", "C07_GroupsIndependent", "C07_ValidUnique"]
 GROUP_FIELDS = ["tomo_id", "object_id", "class"]
@@ -222,7 +222,7 @@ def gen_peaks_case(rng, idx, smax):
             "numbering": rng.randint(0, 1), "order": rng.choice(["zxz", "zzx"]),
             "nsup": rng.choice([5, 40, 150, 400]), "k": rng.randint(1, 40), "blobs": rng.randint(0, 6),
             "as_file": rng.random() < 0.5, "thr_mode": rng.choice(["quantile", "quantile", "zero", "negative"]),
-            "nangles": 23, "map_form": rng.choice(["c", "c", "f", "view", "em", "mrc"])}
+            "nangles": 23, "map_form": rng.choice(["c", "c", "f", "view", "em", "mrc", "ro", "f32"])}
 
 
 def exec_peaks_case(ctx, case):
@@ -236,8 +236,8 @@ def exec_peaks_case(ctx, case):
         w = rs.uniform(1.0, 3.5)
         scores += rs.uniform(0.5, 2.0) * np.exp(-((gx - c[0]) ** 2 + (gy - c[1]) ** 2 + (gz - c[2]) ** 2) / (2 * w * w))
     form = case.get("map_form", "c")
-    if form in ("em", "mrc"):
-        scores = scores.astype(np.float32).astype(np.float64)        # what a float32 file can hold
+    if form in ("em", "mrc", "f32"):
+        scores = scores.astype(np.float32).astype(np.float64)        # what a float32 file / array can hold
     flat = np.sort(scores.ravel())
     nsup = min(case["nsup"], scores.size - 1)
     if np.any(np.diff(flat[-nsup - 2:]) < 1e-9):
@@ -266,19 +266,25 @@ def exec_peaks_case(ctx, case):
         alist_arg = path
     else:
         alist_arg = alist
-    if form in ("em", "mrc") and case.get("thr_mode", "quantile") != "quantile":
+    if form in ("em", "mrc", "f32") and case.get("thr_mode", "quantile") != "quantile":
         scores = scores.astype(np.float32).astype(np.float64)        # the shift above must survive the file too
         if np.any(np.diff(np.sort(scores.ravel())[-nsup - 2:]) < 1e-9) or not (np.sort(scores.ravel())[-nsup - 1] < threshold < np.sort(scores.ravel())[-nsup]):
             ctx.discard("float32 file would change the supra-threshold set")
             return None
     sig["map_form"] = form
     scores_arg, amap_arg = map_args(ctx, case, form, scores, amap)
+    guard = argguard.Guard(score_map=scores_arg, angle_map=amap_arg, angle_list=alist_arg)
     out, err = core.call_guarded(tmana.scores_extract_particles, scores_arg, amap_arg, alist_arg, 7, diameter,
                                  scores_threshold=threshold, angles_numbering=case["numbering"],
                                  angles_order=case["order"])
     ctx.ran(case)
     if err is not None:
         ctx.fail("call_raises", err, case, sig)
+        return None
+    why = guard.changed()
+    if why:
+        # the peaks are defined against the maps the caller holds: a call that rewrites them answers about other maps
+        ctx.fail("C07_PeakPayload", "scores_extract_particles changed its argument (%s)" % why, case, sig)
         return None
     sup = np.argwhere(scores > threshold)
     n = sup.shape[0]
@@ -322,6 +328,13 @@ def map_args(ctx, case, form, scores, amap):
     from .. import parsers
     if form == "f":
         return np.asfortranarray(scores), np.asfortranarray(amap)
+    if form == "ro":                                  # maps the caller protects against writing (e.g. memory-mapped)
+        a, b = scores.copy(), amap.copy()
+        a.flags.writeable = False
+        b.flags.writeable = False
+        return a, b
+    if form == "f32":                                 # single-precision score map, integer-typed angle map
+        return scores.astype(np.float32), amap.astype(np.int32 if case["id"] % 2 else np.int64)
     if form == "view":
         return (np.ascontiguousarray(scores.transpose(2, 1, 0)).transpose(2, 1, 0),
                 np.ascontiguousarray(amap.transpose(2, 1, 0)).transpose(2, 1, 0))
